@@ -1,6 +1,7 @@
 /- Driver operations for `Flake.lean` (`flakeRun`, `flakeStep`, `flakeKb`). Float only
    (the step uses `pow`/`sqrt`). -/
 import SnowModel.Flake
+import SnowModel.FlakeGeom
 import SnowModel.Ops.OpCond
 import SnowModel.Wire
 
@@ -73,14 +74,26 @@ def decShelf (j : Json) (n : Nat) : Except String (List F) := do
     let nz ← nat j "nz"
     return shelfCoeffs nz n s0 sRel normals
 
+/-- interaction structure: given (`nbrs`, `ext`), or computed from the declared arrangement
+and shape (`arr`, `shape = [nx, ny, nz]`) -/
+def decGeom (j : Json) : Except String (List (List Nat) × List Int) := do
+  match optFld j "nbrs" with
+  | some _ => return (← decNatLists j "nbrs", ← ints j "ext")
+  | none =>
+    let arr := Snow.Topology.Arr.ofString (← str j "arr")
+    let sh ← nats j "shape"
+    match sh with
+    | [nx, ny, nz] => return (nbrsOf arr nx ny nz, extOf arr nx ny nz)
+    | _ => throw "shape must be [nx, ny, nz]"
+
 def decParams (j : Json) : Except String (Params F) := do
   let ii ← str j "initIce"
   let initIce ← match InitIce.ofString ii with
     | some x => pure x
     | none => throw "ValueError: initIce must be direct or indirect"
-  let ext ← ints j "ext"
+  let (nbrs, ext) ← decGeom j
   return {
-    c := ← decConsts j, nbrs := ← decNatLists j "nbrs", ext := ext,
+    c := ← decConsts j, nbrs := nbrs, ext := ext,
     kInt := ← num j "kInt", kExt := ← num j "kExt", kShelf := ← decShelf j ext.length,
     A := ← num j "A", kb := ← decKb j, dt := ← num j "dt", threshold := ← num j "threshold",
     initIce := initIce }
@@ -147,6 +160,7 @@ def flakeRun : Op := fun j => do
     let base : List (String × Json) := [
       ("N", encNat r.N), ("kCN", encNat r.kCN), ("tlen", encNat r.t.length),
       ("kb", encNums p.kb), ("kShelf", encNums p.kShelf),
+      ("nbrs", Json.arr (p.nbrs.map encNats).toArray), ("ext", encInts p.ext),
       ("tNuc", encOptNums r.tNucleation), ("TNuc", encOptNums r.TNucleation),
       ("tSol", encOptNums r.tSolidification),
       ("nucStep", encOptNats nucStep),
